@@ -49,7 +49,7 @@ def make_comparator(rng, kind, m):
 def run_history(rng, kind, ops):
     """ops: list of ("add", float vector incl. marker, feature value) / ("trunc", size); returns the event trace."""
     from artap.archive import Archive
-    from artap.individual import Individual
+    Individual = absx.individual_class(rng)
     vectors = [o[1] for o in ops if o[0] == "add"]
     m = len(vectors[0]) - 1
     try:
